@@ -80,6 +80,12 @@ def items(tier, seed):
             per = 12 if cpu.endswith(("cpu_x64", "cpu_x86")) else 30
             for i in range(0, len(idx), per):
                 out.append(("focus", cpu, mode, si, idx[i:i + per], tier))
+            if tier == "quick":
+                # every other spec gets a SHALLOW exploration (a handful of paths): its witnesses, their selector-field
+                # siblings and their prefixed forms still go through the real decoder and every post-decode stage
+                rest = [k for k in range(nspecs) if k not in set(idx)]
+                for i in range(0, len(rest), 40):
+                    out.append(("focus", cpu, mode, si, rest[i:i + 40], "quick-shallow"))
             out.append(("short", cpu, mode, tier))
     return out
 
@@ -116,6 +122,10 @@ def run_item(item):
         for k in idx:
             s = specs[k]
             n = ml
+            if tier == "quick-shallow":
+                E, recs = decx.explore(cpu, mode, n, s, caps=dict(index=2), max_paths=8, budget_s=3)
+                analyse(cpu, mode, n, s, E, recs, res, "quick")
+                continue
             E, recs = decx.explore(cpu, mode, n, s, caps=dict(index=2), max_paths=600 if tier == "quick" else 3000, budget_s=20 if tier == "quick" else 240)
             analyse(cpu, mode, n, s, E, recs, res, tier)
     res.pop("_sib_seen", None)
